@@ -12,6 +12,7 @@ import (
 	"go/ast"
 	"go/token"
 	"sort"
+	"strconv"
 	"strings"
 )
 
@@ -24,6 +25,7 @@ type c05Site struct {
 	Base    string  `json:"base"`
 	Consts  []int64 `json:"consts"`
 	Deleted bool    `json:"challenge_deleted_before"`
+	User    string  `json:"user_arg"` // the argument naming the authenticated user ("" in the 3-argument form)
 }
 
 func flattenOr(e ast.Expr) []ast.Expr {
@@ -419,6 +421,94 @@ func c05TotpConsumesFirst(p *pkgInfo) bool {
 	return save != 0 && guard != 0 && okRet != 0 && save < guard && guard < okRet
 }
 
+// c05UpgradeSubjectChecked: updateAuthJWTWithNewAuthLevel(intoken, username, level) leaves with an error when
+// parsedJWT.Subject != username, before the only Serialize; and updateAuthCookieAuthlevel passes its own
+// `username` parameter as that argument.
+func c05UpgradeSubjectChecked(p *pkgInfo) bool {
+	fd := p.funcs["updateAuthJWTWithNewAuthLevel"]
+	outer := p.funcs["updateAuthCookieAuthlevel"]
+	if fd == nil || outer == nil || fd.Type.Params == nil {
+		return false
+	}
+	var params []string
+	for _, f := range fd.Type.Params.List {
+		for _, n := range f.Names {
+			params = append(params, n.Name)
+		}
+	}
+	if len(params) != 3 {
+		return false
+	}
+	user := params[1]
+	var checkPos, serPos token.Pos
+	for _, st := range fd.Body.List {
+		if is, ok := st.(*ast.IfStmt); ok && is.Init == nil && is.Else == nil {
+			c := strings.ReplaceAll(p.str(is.Cond), " ", "")
+			if (c == "parsedJWT.Subject!="+user || c == user+"!=parsedJWT.Subject") && c05BodyReturns(is.Body) && checkPos == 0 {
+				checkPos = is.Pos()
+			}
+		}
+	}
+	n := 0
+	ast.Inspect(fd.Body, func(x ast.Node) bool {
+		if ce, ok := x.(*ast.CallExpr); ok {
+			if sel, ok := ce.Fun.(*ast.SelectorExpr); ok && sel.Sel.Name == "Serialize" {
+				n++
+				serPos = ce.Pos()
+			}
+		}
+		return true
+	})
+	if checkPos == 0 || n != 1 || checkPos > serPos {
+		return false
+	}
+	// the subject must not be rewritten between the check and the signing
+	bad := false
+	ast.Inspect(fd.Body, func(x ast.Node) bool {
+		if as, ok := x.(*ast.AssignStmt); ok {
+			for _, l := range as.Lhs {
+				if strings.HasPrefix(p.str(l), "parsedJWT.Subject") || p.str(l) == user {
+					bad = true
+				}
+			}
+		}
+		return true
+	})
+	if bad {
+		return false
+	}
+	// outer: exactly one call, second argument is its own username parameter
+	var oparams []string
+	for _, f := range outer.Type.Params.List {
+		for _, nm := range f.Names {
+			oparams = append(oparams, nm.Name)
+		}
+	}
+	if len(oparams) != 4 {
+		return false
+	}
+	okCall, calls := false, 0
+	ast.Inspect(outer.Body, func(x ast.Node) bool {
+		if ce, ok := x.(*ast.CallExpr); ok {
+			if sel, ok := ce.Fun.(*ast.SelectorExpr); ok && sel.Sel.Name == "updateAuthJWTWithNewAuthLevel" {
+				calls++
+				if len(ce.Args) == 3 && p.str(ce.Args[1]) == oparams[2] {
+					okCall = true
+				}
+			}
+		}
+		if as, ok := x.(*ast.AssignStmt); ok {
+			for _, l := range as.Lhs {
+				if p.str(l) == oparams[2] {
+					bad = true
+				}
+			}
+		}
+		return true
+	})
+	return okCall && calls == 1 && !bad
+}
+
 func genC05(e *emitter) {
 	p := e.pkg("cmd/keymasterd")
 	var sites []c05Site
@@ -429,13 +519,19 @@ func genC05(e *emitter) {
 				return true
 			}
 			sel, ok := ce.Fun.(*ast.SelectorExpr)
-			if !ok || sel.Sel.Name != "updateAuthCookieAuthlevel" || len(ce.Args) != 3 {
+			if !ok || sel.Sel.Name != "updateAuthCookieAuthlevel" || (len(ce.Args) != 3 && len(ce.Args) != 4) {
 				return true
+			}
+			// (w, r, level) as found; (w, r, username, level) since the repair that binds the cookie to the caller
+			levelArg := ce.Args[len(ce.Args)-1]
+			userArg := ""
+			if len(ce.Args) == 4 {
+				userArg = p.str(ce.Args[2])
 			}
 			base := "unknown"
 			cs := map[int64]bool{}
 			unknown, session := false, false
-			for _, op := range flattenOr(ce.Args[2]) {
+			for _, op := range flattenOr(levelArg) {
 				for _, cl := range c05Operand(p, fd, op, 0) {
 					switch {
 					case cl == "session":
@@ -458,7 +554,7 @@ func genC05(e *emitter) {
 			}
 			sort.Slice(consts, func(i, j int) bool { return consts[i] < consts[j] })
 			del := c05DeletesChallengeBefore(p, c05InnermostBlock(fd, ce.Pos()), ce.Pos())
-			sites = append(sites, c05Site{Pos: p.pos(ce), Func: fd.Name.Name, Arg: p.str(ce.Args[2]), Base: base, Consts: consts, Deleted: del})
+			sites = append(sites, c05Site{Pos: p.pos(ce), Func: fd.Name.Name, Arg: p.str(levelArg), Base: base, Consts: consts, Deleted: del, User: userArg})
 			return true
 		})
 	})
@@ -627,8 +723,21 @@ func genC05(e *emitter) {
 		fmt.Fprintf(&b, "(%s, %s)", c05Handler(c.Func), leanBool(c.Ok))
 	}
 	b.WriteString("]\n")
+	// the user each upgrade site names as the owner of the cookie to raise, and whether the re-signing helper
+	// refuses a cookie whose subject is somebody else
+	b.WriteString("\n/-- (handler, source of the user name handed to updateAuthCookieAuthlevel; \"\" = none) -/\ndef upgradeUserArgs : List (HandlerId × List Char) := [")
+	for i, s := range sites {
+		if i > 0 {
+			b.WriteString(", ")
+		}
+		fmt.Fprintf(&b, "(%s, %s.toList)", c05Handler(s.Func), strconv.Quote(s.User))
+	}
+	b.WriteString("]\n")
+	subj := c05UpgradeSubjectChecked(p)
+	fmt.Fprintf(&b, "\n/-- updateAuthJWTWithNewAuthLevel: `if parsedJWT.Subject != username { … return }` before the claims are re-signed, and updateAuthCookieAuthlevel hands its username parameter through -/\ndef upgradeSubjectChecked : Bool := %s\n", leanBool(subj))
 	b.WriteString("\nend KM.Gen\n")
 	e.lean("C05.lean", b.String())
+	e.facts["c05_upgrade_subject_checked"] = subj
 	e.facts["c05_auth_cookie_choice"] = choices
 	e.facts["c05_consumed_before_upgrade"] = conss
 	e.facts["c05_upgrade_sites"] = sites
